@@ -482,7 +482,7 @@ def tr_ast(ast, bind):
         return ast
     if ast[0] == "bin":
         return ["bin", ast[1], tr_ast(ast[2], bind), tr_ast(ast[3], bind)]
-    if ast[0] in ("eq", "neq", "item"):
+    if ast[0] in ("eq", "neq", "item", "cattr"):
         return [ast[0], tr_ast(ast[1], bind), tr_ast(ast[2], bind)]
     if ast[0] == "un":
         return ["un", ast[1], tr_ast(ast[2], bind)]
